@@ -18,8 +18,8 @@ POOLS = [0, 1, 2, 3, 5, 6, 8, 16]      # 0 = the global pool; 3, 5, 6 do not div
 
 def sizes(ctx):
     if ctx.tier == 'quick':
-        return dict(programs=16, groups=48, triples=72)
-    return dict(programs=60, groups=300, triples=216)
+        return dict(programs=16, groups=48, triples=72, shared=24)
+    return dict(programs=60, groups=300, triples=216, shared=160)
 
 
 def gen_cases(ctx):
@@ -116,6 +116,19 @@ def gen_cases(ctx):
             ti += 1
             c.jobs.append(P.Job('%s_t%d_%s_%d_%d_%d' % (c.name, ti, v.name, a, b, c3), c, v, rows, steps=[('pool', b), ('run',), ('pool', c3), ('run',)],
                                 params={'cpool': a, 'pool': b, 'rep': 3}, meta={'scenario': 'pools', 'process': 'first%d' % a, 'triple': (a, b, c3)}))
+    # (d) instances as tasks of ONE shared rayon pool (`pool.install(|| instances.par_iter().for_each(run))`): every run() executes on a
+    # worker of that pool, and a worker waiting for a stolen sub-job of one instance may run another instance nested on its stack.
+    # The members of a group are instances of one generated type (one binary), mostly parallel ones.
+    for g in range(sz['shared']):
+        c = rng.choice(corpus_cases) if g % 2 == 0 else rng.choice(cases)
+        pars = [x for x in c.variants if x.par]
+        v = rng.choice(pars) if pars and rng.random() < 0.85 else rng.choice(c.variants)
+        k = rng.choice([4, 8, 16, 32])
+        shared = rng.choice([2, 3, 4, 8])
+        for m in range(k):
+            rows = c.mk(c.rng)
+            c.jobs.append(P.Job('%s_s%d_m%d_%s' % (c.name, g, m, v.name), c, v, rows, params={'group': 's%d' % g, 'shared_pool': shared},
+                                meta={'scenario': 'shared_pool', 'process': 'shp%d' % (g % 4), 'group_size': k}))
     return cases
 
 
@@ -126,14 +139,17 @@ def run(ctx, only=None):
     ctx.rule = ('corpus + random programs (no-index cross products, partial / full indices, lattices, aggregates, binary eqrel) as ascent!, ascent_par!, ascent_par!+inter_rule_parallelism. '
                 '(a) groups of 2-16 instances of the same or of different generated types started on a barrier on separate OS threads, parallel ones inside their own pools; '
                 '(b) construct in pool A, run in pool B, (add facts,) run in pool C for A,B,C in {global,1,2,3,5,6,8,16}, grouped into one OS process per A so that the first pool the '
-                'process sees (which fixes the shard count of the concurrent indices) varies; (c) the run pool entered from inside a worker of an outer pool. '
+                'process sees (which fixes the shard count of the concurrent indices) varies; (c) the run pool entered from inside a worker of an outer pool; (d) groups of 4-32 instances of one generated type run as tasks of ONE shared rayon pool of 2-8 workers (a worker that waits for a stolen sub-job may run another instance nested on its stack). '
                 'Oracle: every instance equals the reference on its own facts. case = one instance execution; non-trivial = reference non-trivial; distinct = distinct (variant, input, scenario)')
     ctx.assumptions = ['reference evaluator', 'statistics counters (static mut timing totals) are outside the property: they never feed back into evaluation']
-    stat = {'concurrent_instances': 0, 'pool_histories': 0, 'nested_pool_histories': 0}
+    stat = {'concurrent_instances': 0, 'pool_histories': 0, 'nested_pool_histories': 0, 'shared_pool_instances': 0}
     triples = set()
 
     def on_ok(c, j, jr, refs):
-        if j.meta['scenario'] == 'concurrent':
+        if j.meta['scenario'] == 'shared_pool':
+            stat['shared_pool_instances'] += 1
+            ctx.cov_max('max_shared_pool_group_size', j.meta['group_size'])
+        elif j.meta['scenario'] == 'concurrent':
             stat['concurrent_instances'] += 1
             ctx.cov_max('max_group_size', j.meta['group_size'])
         else:
